@@ -61,7 +61,8 @@ from lib import Broken, build_harness, write_ndjson, read_ndjson, tlc, parse_tup
 STORE_GEN_CFG = "SPECIFICATION Spec\nCONSTANTS\n  Ids = {\"a\",\"b\"}\n  Vals = {\"v1\",\"v2\"}\n  RemoveAbsentErr = FALSE\n  StoreOnce = FALSE\n  Depth = 14\nCHECK_DEADLOCK FALSE\n"
 BACKENDS = {"inmem": dict(RemoveAbsentErr="FALSE", StoreOnce="FALSE"),
             "file": dict(RemoveAbsentErr="TRUE", StoreOnce="FALSE"),
-            "filemeta": dict(RemoveAbsentErr="TRUE", StoreOnce="FALSE"),     # file back end in a directory whose name holds glob metacharacters
+            "filemeta": dict(RemoveAbsentErr="TRUE", StoreOnce="FALSE"),
+            "file2": dict(RemoveAbsentErr="TRUE", StoreOnce="FALSE"),        # two handles on one directory     # file back end in a directory whose name holds glob metacharacters
             "storeonce": dict(RemoveAbsentErr="FALSE", StoreOnce="TRUE")}
 
 
@@ -170,7 +171,7 @@ def store_family():
         mc=dict(quick=[("MC_Store.tla", "MC_Store_FALSE.cfg"), ("MC_Store.tla", "MC_Store_TRUE.cfg")],
                 thorough=[("MC_Store.tla", "MC_Store_FALSE.cfg"), ("MC_Store.tla", "MC_Store_TRUE.cfg")]),
         gen=[dict(module="StoreGen.tla", cfg="StoreGen_a.cfg", depth=14, num=dict(quick=60, thorough=1500), tag=b,
-                  beh_cfg=dict(backend=b, mode="seq")) for b in ("inmem", "file", "storeonce", "filemeta")],
+                  beh_cfg=dict(backend=b, mode="seq")) for b in ("inmem", "file", "storeonce", "filemeta", "file2")],
         post=store_post,
         rule={"*": "sequential: TLC-generated operation sequences (store/load/remove/list over 2 ids x 4 types + unknown and nil types + empty ids) executed on the in-memory, file and store-once back ends, each call judged against the map model with the back end's parameters; concurrent: seeded 3-client programs on the in-memory back end under the race detector, TLC searches a linearisation of each recorded history"},
         assumptions=["pre/post projections are read through the back end's own Load; the file back end runs in a temporary directory",
